@@ -95,6 +95,17 @@ func (e *Engine) verifyFunction(name string, spec *FuncSpec) (fc *FnCtx, err err
 			panic(bindError{msg: fmt.Sprintf("before-clause %q names callee %q, which the function never calls", clauseLabel(b.Clause, i), b.Callee)})
 		}
 	}
+	// likewise a ghost bound to a call the function never makes: every clause over it would be vacuous
+	for _, g := range spec.Ghosts {
+		if !fc.ghostHits[ghostKey(g)] {
+			var seen []string
+			for k, n := range fr.invokeN {
+				seen = append(seen, fmt.Sprintf("%s x%d", strings.TrimPrefix(k, "call:"), n))
+			}
+			sort.Strings(seen)
+			panic(bindError{msg: fmt.Sprintf("ghost %q is bound to %s %s #%d, which the function never reaches (calls seen: %s)", g.Name, g.Kind, g.Method, g.Ord, strings.Join(seen, ", "))})
+		}
+	}
 	// escaped panics
 	if len(fr.panics) > 0 && !spec.MayPanic {
 		var pcs []Term
